@@ -114,6 +114,7 @@ func (in *Interp) rxEmptyCond(op syntax.EmptyOp, prev, next rxRune, pos, n int) 
 }
 
 func (in *Interp) rxAdd(m *regexModel, q *rxQueue, pc int, cond T, caps []int, prev, next rxRune, pos, n int) {
+	cond = in.fold(cond)
 	if cond.IsFalse() {
 		return
 	}
@@ -256,7 +257,7 @@ func (in *Interp) rxRun(fr *frame, m *regexModel, s str) []rxMatch {
 				matchedSoFar = tb.OrB(matchedSoFar, cond)
 				notCut = tb.AndB(notCut, tb.Not(t.cond))
 			default:
-				mc := in.rxRuneMatch(i, next)
+				mc := in.fold(in.rxRuneMatch(i, next))
 				in.rxAdd(m, nextq, int(i.Out), tb.AndB(cond, mc), t.caps, next, after, pos+next.width, n)
 			}
 		}
@@ -380,4 +381,87 @@ func initRegexExternals() {
 		return fr.in.mkStr(fr.in.regexOf(a[0]).pattern)
 	}
 	_ = fmt.Sprint
+}
+
+// ---------------------------------------------------------------------
+// strings.Replacer model: leftmost, non-overlapping, argument order.
+
+type replacerModel struct {
+	olds, news []string
+	singleByte bool
+}
+
+func initReplacerExternals() {
+	externals["strings.NewReplacer"] = func(fr *frame, a []value) value {
+		in := fr.in
+		args := a[0].([]value)
+		if len(args)%2 == 1 {
+			in.rtPanic("strings.NewReplacer: odd argument count")
+		}
+		m := &replacerModel{singleByte: true}
+		for i := 0; i < len(args); i += 2 {
+			o := in.concreteStrArg(args[i], "Replacer old string")
+			n := in.concreteStrArg(args[i+1], "Replacer new string")
+			m.olds = append(m.olds, o)
+			m.news = append(m.news, n)
+			if len(o) != 1 {
+				m.singleByte = false
+			}
+		}
+		cell := new(value)
+		*cell = m
+		return cell
+	}
+	externals["(*strings.Replacer).Replace"] = func(fr *frame, a []value) value {
+		in := fr.in
+		p, ok := a[0].(*value)
+		if !ok || p == nil {
+			in.rtPanic("nil *strings.Replacer")
+		}
+		m, ok := (*p).(*replacerModel)
+		if !ok {
+			unsupported("strings.Replacer value is not a modelled replacer (%T)", *p)
+		}
+		s := a[1].(str)
+		in.checkOpaque(s)
+		if m.singleByte {
+			var out []T
+			for _, b := range s.b {
+				replaced := false
+				for k, o := range m.olds {
+					if in.decide(in.tb.Bin(term.Eq, b, in.tb.BV(8, uint64(o[0])))) {
+						out = append(out, in.mkStr(m.news[k]).b...)
+						replaced = true
+						break
+					}
+				}
+				if !replaced {
+					out = append(out, b)
+				}
+			}
+			return str{b: out}
+		}
+		cs, ok := s.concrete()
+		if !ok {
+			unsupported("strings.Replacer with multi-byte patterns on a symbolic string")
+		}
+		// generic algorithm on concrete input
+		var sb []byte
+		for i := 0; i < len(cs); {
+			matched := false
+			for k, o := range m.olds {
+				if o != "" && len(cs)-i >= len(o) && cs[i:i+len(o)] == o {
+					sb = append(sb, m.news[k]...)
+					i += len(o)
+					matched = true
+					break
+				}
+			}
+			if !matched {
+				sb = append(sb, cs[i])
+				i++
+			}
+		}
+		return in.mkStr(string(sb))
+	}
 }
